@@ -125,6 +125,23 @@ theorem resplit_transparent (ops : List Op) (s : St α) :
     (trace s ops).filter (fun o => o.frame.isSome) = trace s (ops.filter Op.isPull) :=
   ⟨run_erase_resplit ops s, trace_erase_resplit ops s⟩
 
+/-- *"reference-counted branches"*, lifetime events: dropping one branch's handle does not
+    touch the shared state (no `Drop` impl; `next` never looks at the reference count) -/
+theorem drop_is_identity (s : St α) (me : Bool) : dropBranch s me = s := rfl
+
+/-- after one branch is dropped (or simply never pulled again) the survivor still receives
+    every source frame in order, none lost or duplicated: first the frames the other branch
+    had queued for it, then fresh ones — from any invariant state, for any number of pulls,
+    with no bound on how far it runs ahead of the branch that is gone (branch A) -/
+theorem survivorA_sees_source (f : Nat → α) (cap : Nat) (s : St α) (c : Cur) (hi : Inv f cap s c) (n : Nat) :
+    (solo s true n).1 = (List.range' c.a n).map f :=
+  solo_of_invMe f cap true n s c.a c.b hi
+
+/-- the same for branch B as the survivor -/
+theorem survivorB_sees_source (f : Nat → α) (cap : Nat) (s : St α) (c : Cur) (hi : Inv f cap s c) (n : Nat) :
+    (solo s false n).1 = (List.range' c.b n).map f :=
+  solo_of_invMe f cap false n s c.b c.a ((invMe_swap f cap s true c.a c.b).2 hi)
+
 /-- *"any capacity >= 1"*: with one slot the two branches can still alternate forever, in
     either order, from any level position -/
 theorem alternation_admissible (cap : Nat) (h : 1 ≤ cap) (n : Nat) (first : Bool) :
@@ -163,6 +180,14 @@ example : (trace (init src5 1) [B, A, A, B, B, A]).map view =
     capacity 1, letting A lead by 2 overwrites frame 10 and B never sees it -/
 example : (trace (init src5 1) [A, A, B]).map view =
     [(some 10, 0, 1, 1), (some 20, 0, 1, 2), (some 20, 0, 0, 2)] := by decide
+
+/-- capacity 2, by `Rc`: A gets two ahead and is dropped; B, the survivor, first receives the
+    two queued frames, then fresh ones, running arbitrarily far past the branch that is gone -/
+example : (trace (init src5 2) [.resplitRc, A, A, .drop true, B, B, B, B, B, B]).map view =
+    [(none, 0, 0, 0), (some 10, 0, 1, 1), (some 20, 0, 2, 2), (none, 0, 2, 2), (some 10, 0, 1, 2),
+     (some 20, 0, 0, 2), (some 30, 1, 0, 3), (some 40, 2, 0, 4), (some 50, 2, 0, 5), (some 0, 2, 0, 6)] := by decide
+
+example : (solo (run (init src5 2) [A, A]) false 6).1 = [10, 20, 30, 40, 50, 0] := by decide
 
 example : ¬ Admissible 1 ⟨0, 0⟩ [A, A, B] := by simp [Admissible, Cur.step, Cur.lead, A]
 
